@@ -30,56 +30,74 @@ T0 = 1500000000
 # the world: a scratch tree whose mtimes are set explicitly to strictly increasing seconds
 
 class World(object):
+    """A scratch tree.  Every modification sets the file's mtime explicitly (integer seconds) to a value
+    that differs from the current one and that this file never had: direction 'f' = one second above
+    every mtime the file ever had, 'b' = one second below every one (mtime moving BACKWARD: restored
+    backup, VCS checkout, cp -p).  A file is created at a base value in the middle of the range."""
+
     def __init__(self, spec, root):
         self.spec = spec
         self.root = root
-        self.clock = T0
         self.version = {}
+        self.used = {}                 # mid -> set of mtimes this file ever had
+        self.mtime = {}                # mid -> current mtime
         for mid in spec['order']:
             m = spec['modules'][mid]
             if m['init']:
                 os.mkdir(os.path.join(root, G.stem(spec, mid)))
         for mid in spec['order']:
             if spec['modules'][mid]['present']:
-                self.write(mid, 0)
+                self.write(mid, 0, 'f')
 
     def path(self, mid):
         return os.path.join(self.root, G.relpath(self.spec, mid))
 
-    def stamp(self, mid):
-        self.clock += 1
-        os.utime(self.path(mid), (self.clock, self.clock))
+    def stamp(self, mid, direction):
+        used = self.used.setdefault(mid, set())
+        if not used:
+            t = T0 + 1000 * self.spec['order'].index(mid)
+        elif direction == 'b':
+            t = min(used) - 1
+        else:
+            t = max(used) + 1
+        assert t not in used and t != self.mtime.get(mid)
+        used.add(t)
+        self.mtime[mid] = t
+        os.utime(self.path(mid), (t, t))
 
-    def write(self, mid, version):
+    def write(self, mid, version, direction):
         with open(self.path(mid), 'w') as f:
             f.write(G.render(self.spec, mid, version))
         self.version[mid] = version
-        self.stamp(mid)
+        self.stamp(mid, direction)
 
     def text(self, mid):
         return G.render(self.spec, mid, self.version[mid])
 
     def apply(self, op):
-        """returns the effective operation kind or None for a no-op (outside the alphabet's meaning)"""
-        kind, mid = op
+        """returns the effective operation kind ('create', 'rewrite-fwd', 'rewrite-back', 'touch-fwd',
+        'touch-back') or None for a no-op (outside the alphabet's meaning)"""
+        kind, mid = op[0], op[1]
+        direction = op[2] if len(op) > 2 else 'f'
         here = mid in self.version
         if kind == 'put':
             kind = 'rewrite' if here else 'create'
         if kind == 'create':
             if here:
                 return None
-            self.write(mid, 0)
+            self.write(mid, 0, 'f')
+            return 'create'
         elif kind == 'rewrite':
             if not here:
                 return None
-            self.write(mid, self.version[mid] + 1)
+            self.write(mid, self.version[mid] + 1, direction)
         elif kind == 'touch':
             if not here:
                 return None
-            self.stamp(mid)
+            self.stamp(mid, direction)
         else:
             raise ValueError(op)
-        return kind
+        return kind + ('-back' if direction == 'b' else '-fwd')
 
 
 def canon(x, root):
@@ -153,7 +171,7 @@ def timeline(spec, hist, upto):
     """state of the history before op index `upto`"""
     mods = spec['modules']
     st = {'present': {m for m in mods if mods[m]['present']}, 'lm': {m: -1 for m in mods},
-          'lc': {m: -1 for m in mods}, 'created_at': {}, 'reqs': [], 'ops': {}}
+          'lc': {m: -1 for m in mods}, 'created_at': {}, 'reqs': [], 'ops': {}, 'back': {}, 'ever_back': set()}
     for i, op in enumerate(hist[:upto]):
         kind = op[0]
         if kind == 'req':
@@ -173,12 +191,18 @@ def timeline(spec, hist, upto):
             st['lm'][mid] = i
         else:
             continue
-        st['ops'].setdefault(mid, []).append(kind)
+        back = kind != 'create' and len(op) > 2 and op[2] == 'b'
+        st['back'][mid] = back
+        if back:
+            st['ever_back'].add(mid)
+        st['ops'].setdefault(mid, []).append(kind + ('-back' if back else ''))
     return st
 
 
-def classify(spec, hist, i, a_long, a_fresh):
-    """(mechanism label, info) for a mismatch at request hist[i]"""
+def classify(spec, hist, i, a_long, a_fresh, differs_forward_only=None):
+    """(mechanism label, info) for a mismatch at request hist[i].
+    differs_forward_only: None, or a function () -> bool that re-runs the same history with every mtime
+    moving forward and tells whether the two answers still differ at this request."""
     probe = spec['probes'][hist[i][1]]
     F = probe['file']
     st = timeline(spec, hist, i)
@@ -272,6 +296,17 @@ def classify(spec, hist, i, a_long, a_fresh):
         next((e for e in explained if e[2]), explained[0])
     info['outdated_version_visible'] = bool(pick[2] and pick[1].startswith('stale-') and both_sides(pick[0]))
     M, label, _, extra = pick
+    # some modification moved an mtime backward: if the same history with forward-moving mtimes gives no
+    # difference at this request, the direction of the mtime change is what the cache got wrong; blame the
+    # culprit if its latest modification was backward, else the nearest module that was ever moved backward
+    backs = sorted((m for m in st['ever_back'] if m != F), key=lambda m: (dist.get(m, 99), m))
+    if backs and differs_forward_only is not None:
+        still = differs_forward_only()
+        info['differs_with_forward_mtimes_too'] = still
+        if not still:
+            if not st['back'].get(M) or M == F:
+                M, extra = backs[0], {}
+            label = 'stale-after-backward-mtime-dist%s' % dist.get(M, '?')
     info['culprit'] = M
     info['culprit_ops'] = st['ops'].get(M)
     info['distance'] = dist.get(M)
@@ -316,6 +351,10 @@ def run_history(spec, hist, part, compare, key, seen_mechs, selfcheck=False):
                     part.count('ops_without_effect')
                 else:
                     part.hist('modification_kind', kind)
+                    if kind.endswith('-back'):
+                        part.count('modifications_mtime_backward')
+                    elif kind.endswith('-fwd'):
+                        part.count('modifications_mtime_forward')
                     if first_req is not None:
                         mods_since.append((op[1], kind))
                 continue
@@ -361,7 +400,8 @@ def run_history(spec, hist, part, compare, key, seen_mechs, selfcheck=False):
                 part.count('oracle_unstable_discarded')
                 continue
             part.count('answers_differ')
-            mech, info = classify(spec, hist, i, a_long, a_fresh)
+            mech, info = classify(spec, hist, i, a_long, a_fresh,
+                                  lambda: differs_at(spec, G.forward_only(hist[:i + 1]), i))
             part.hist('mismatch_mechanism', mech)
             part.hist('mismatch_request_kind', '%s:%s' % (mech, probe['kind']))
             cap = 1 if compare == 'last' else 2
@@ -376,6 +416,27 @@ def run_history(spec, hist, part, compare, key, seen_mechs, selfcheck=False):
     finally:
         shutil.rmtree(root, ignore_errors=True)
     return nontrivial
+
+
+def differs_at(spec, hist, i):
+    """quiet re-execution of a history: do the long-lived and the fresh answer differ at request i?"""
+    from supp.project import Project
+    root = tempfile.mkdtemp(prefix='vf-')
+    try:
+        world = World(spec, root)
+        longp = Project([root])
+        for j, op in enumerate(hist[:i + 1]):
+            if op[0] != 'req':
+                world.apply(op)
+                continue
+            probe = spec['probes'][op[1]]
+            a_long = ask(longp, world, probe)
+            if j == i:
+                a_fresh = ask(Project([root]), world, probe)
+                return a_long != a_fresh and not (a_long[0] == 'exc' and a_fresh[0] == 'exc')
+    finally:
+        shutil.rmtree(root, ignore_errors=True)
+    return False
 
 
 _counter = [0]
@@ -396,13 +457,16 @@ def new_tag():
 # workers
 
 def work_chain(arg):
-    variant, length, start, count = arg
+    variant, length, start, count = arg[:4]
+    seed = arg[4] if len(arg) > 4 else 0
     part = core.Part()
     seen = {}
     for idx in range(start, start + count):
         spec = G.chain_spec(variant, new_tag())
         mods, reqs = G.chain_alphabet(variant, spec)
         hist = G.chain_history(mods, reqs, length, idx)
+        # the operation sequences are enumerated; the direction of each mtime change is drawn from the seed
+        hist = G.with_directions(hist, random.Random('%s:C09:dir:%s:%d:%d' % (seed, variant, length, idx)))
         key = 'chain%s:%s' % (variant, ' '.join(G.op_code(o) for o in hist))
         part.count('histories')
         part.count('histories_exhaustive_chain%s_len%d' % (variant, length))
@@ -482,13 +546,13 @@ def main(run):
                 per = 200
                 starts = sorted(rng.sample(range(0, total, per), max(1, take // per))) if take >= per else []
                 for s in starts:
-                    jobs.append(['chain', [variant, length, s, min(per, total - s)]])
+                    jobs.append(['chain', [variant, length, s, min(per, total - s), run.seed]])
                 enumerated['chain%s_len%d' % (variant, length)]['run'] = sum(min(per, total - s) for s in starts)
                 enumerated['chain%s_len%d' % (variant, length)]['how'] = 'budget-capped: %d blocks of %d consecutive indices drawn per seed' % (len(starts), per)
             else:
                 per = run.pick(250, 1000)
                 for s in range(0, total, per):
-                    jobs.append(['chain', [variant, length, s, min(per, total - s)]])
+                    jobs.append(['chain', [variant, length, s, min(per, total - s), run.seed]])
         used = spent
     nrand = run.pick(3000, 24000)
     per = run.pick(25, 100)
@@ -512,23 +576,28 @@ def main(run):
     run.extra['enumerated'] = {
         'fixed_chains': 'S: m star-imports a (+ from a import K_c), a star-imports b, b re-exports K_c,c_s from c and star-imports d (absent at start); '
                         'R: m imports a (+ from a import b), a imports b, b re-exports from c and imports d (absent at start)',
-        'alphabets (E=rewrite with new content+mtime, T=touch, P=create-or-rewrite, R=request)': alphabets,
+        'alphabets (E=rewrite with new content+mtime, T=touch, P=create-or-rewrite, R=request; lower case in a history = mtime moved backward)': alphabets,
         'levels': enumerated,
         'complete_up_to_length': full_to,
         'note': 'a history that ends in a modification adds nothing to its longest prefix ending in a request, so every history of '
                 'length <= N is covered by the histories ending in a request; only the final request of each is compared (the '
                 'earlier ones are the final requests of its prefixes); levels above complete_up_to_length are budget-capped samples',
+        'mtime_policy': 'every rewrite/touch moves the file to an integer-second mtime it never had: forward (above all earlier ones) '
+                        'or backward (below all earlier ones); exhaustive part: the operation sequences are enumerated completely, the '
+                        'direction of each modification is drawn from the seed (p=1/2); random part: backward with p=0.4',
         'random': '%d random histories of 6..40 operations on random projects (every request compared)' % nrand,
     }
     return run.finish(
         rule='case = one history (exhaustive: ends in a request, keyed by its operation string; random: keyed by seed:index); '
              'non-trivial = it contains a compared request that was issued after an earlier request and a later modification of a '
              'module at import distance >= 1 from the requested file, and whose fresh-project answer mentions generated identifiers',
-        require=('requests_compared', 'requests_nontrivial', 'answers_equal', 'fresh_vs_fresh_checks', 'histories_random'),
+        require=('requests_compared', 'requests_nontrivial', 'answers_equal', 'fresh_vs_fresh_checks', 'histories_random',
+                 'modifications_mtime_forward', 'modifications_mtime_backward'),
         assumptions=[
             'oracle = Project([root]) created after the last write, asked the same request in the same process; its stability is '
             're-checked on every difference (and on a sample of agreements) by asking a third fresh project',
-            'every modification sets the mtime with os.utime to a strictly increasing integer second; no deletion, no removal of '
+            'every modification sets the mtime with os.utime to an integer second that differs from the current one and was never used '
+            'for that file (forward or backward, see mtime_policy); no deletion, no removal of '
             '__init__.py, no second root, import graphs are acyclic, module-level code is straight-line (no MultiName alternatives)',
             'alternatives inside one location entry are compared as sets (their order is an address-order matter of C17); when both '
             'sides raise, nothing is judged (C08)',
